@@ -122,6 +122,9 @@ def check(ctx):
         "rule": "every configuration of the box is one trace; every clause is evaluated at "
                 "every event of every trace by TLC (TraceExec.tla)",
     }
+    if ctx.pid == "C01":
+        from . import oplayer
+        coverage["operation_layer"] = oplayer.run(ctx)      # diagnostic (see harness/oplayer.py)
     return viols, coverage, ["restart checkpoint coverage is [n0,n1) of the writing Forward",
                              "the executor semantics of Executor.tla (transcribed from schedule.py "
                              "docstrings and tests/test_validity.py)"]
